@@ -446,6 +446,10 @@ def f_same(ex, st, e):
 def f_has(ex, st, e):
     o = ex.as_ref(ex.ev1(e.args[0], st), st, e)
     name = e.args[1].value
+    classes = ex.static_classes(o)
+    concs = ex.concrete_subclasses(classes) if classes else []
+    if concs and ex.fi.name != "__init__" and all(c in ex.P.classes and name in ex.P.init_assigned(c) for c in concs):
+        return _b(z3.BoolVal(True))     # assigned unconditionally by every constructor of the static type (I-DEF)
     return _b(ex.heap_get(st, "has$" + name)[o.t])
 
 
